@@ -2,7 +2,9 @@ package bloomfilter
 
 import (
 	"encoding/binary"
+	"fmt"
 	"hash/fnv"
+	"io"
 	"math"
 	"os"
 	"sync"
@@ -143,7 +145,7 @@ func LoadBloomFilter(filePath string) (*BloomFilter, error) {
 
 	// Read header: size, hash functions, expected elements, insertions
 	header := make([]byte, 32)
-	if _, err := file.Read(header); err != nil {
+	if _, err := io.ReadFull(file, header); err != nil {
 		return nil, err
 	}
 
@@ -152,9 +154,22 @@ func LoadBloomFilter(filePath string) (*BloomFilter, error) {
 	expectedN := binary.LittleEndian.Uint64(header[16:24])
 	insertions := binary.LittleEndian.Uint64(header[24:32])
 
+	// The header must describe exactly the bit array that follows it: a
+	// damaged size would otherwise cause a huge allocation or a division by
+	// zero, a damaged hash count an endless loop in Contains
+	stat, err := file.Stat()
+	if err != nil {
+		return nil, err
+	}
+	bitBytes := size/8 + (size%8+7)/8
+	if size == 0 || hashFuncs == 0 || hashFuncs > size || stat.Size() < 32 || uint64(stat.Size()-32) != bitBytes {
+		return nil, fmt.Errorf("corrupt bloom filter: header (size %d, hash functions %d) does not match %d bytes of data",
+			size, hashFuncs, stat.Size())
+	}
+
 	// Read bit array
-	bits := make([]byte, (size+7)/8)
-	if _, err := file.Read(bits); err != nil {
+	bits := make([]byte, bitBytes)
+	if _, err := io.ReadFull(file, bits); err != nil {
 		return nil, err
 	}
 
